@@ -132,6 +132,9 @@ let () =
     while true do
       let line = input_line stdin in
       if String.trim line = "" || line.[0] = '#' then print_endline ""
+      else if line.[0] = 'T' then
+        print_endline ("sizes " ^ String.concat " " (List.map (fun t -> string_of_int (int_of_nat (tsize t)))
+                                                        [TI8; TU8; TI16; TU16; TI32; TU32; TI64; TU64; TF; TD; TLD; TP]))
       else (try run_case line with Failure m -> print_endline ("modelerror " ^ m))
     done
   with End_of_file -> ()
